@@ -541,13 +541,18 @@ func (d *Decoder) decodeSymbolTo(v reflect.Value) error {
 	switch v.Kind() {
 	case reflect.String:
 		if val != nil {
+			if val.Text == nil {
+				return fmt.Errorf("ion: cannot decode symbol $%v with unknown text to %v", val.LocalSID, v.Type().String())
+			}
 			v.SetString(*val.Text)
 		}
 		return nil
 
 	case reflect.Struct:
 		if v.Type() == symbolType {
-			v.Set(reflect.ValueOf(val))
+			if val != nil {
+				v.Set(reflect.ValueOf(*val))
+			}
 			return d.attachAnnotations(v)
 		}
 		return d.decodeToStructWithAnnotation(v, symbolType.Kind())
@@ -908,6 +913,10 @@ func (d *Decoder) attachAnnotations(v reflect.Value) error {
 			annotations, err := d.r.Annotations()
 			if err != nil {
 				return err
+			}
+			if !reflect.TypeOf(annotations).AssignableTo(subValue.Type()) {
+				return fmt.Errorf("ion: '%v' is provided for annotations, it must be of type []SymbolToken",
+					subValue.Type().String())
 			}
 			subValue.Set(reflect.ValueOf(annotations))
 			break
